@@ -3,6 +3,7 @@
 Completion monitor (wrapper recording exception type and deepest frames of the REAL call at the DEFAULT recursion limit) plus a
 stack-depth monitor (sys.setprofile, max Python frame depth inside the call) that steers the size sweep: if depth grows with n the
 harness extrapolates the size n* where the default limit would be reached and drives the real call there. Only a real failure is a verdict."""
+import os
 import resource
 import sys
 import time
@@ -14,9 +15,9 @@ from . import common
 
 JOBS = {
     "quick": [("path", 2100), ("ladder", 1200), ("comb", 2000), ("polymer", 1500), ("peptide", 1500), ("cycle", 5000), ("h2", 4000), ("isolated", 4000),
-              ("complete", 80), ("single", 1), ("caterpillar", 1500), ("cycle13c", 3000), ("star", 3000), ("grid", 900), ("bintree", 2047), ("steer", 0), ("small-sweep", 0)],
+              ("complete", 80), ("single", 1), ("caterpillar", 1500), ("cycle13c", 3000), ("star", 3000), ("grid", 900), ("bintree", 2047), ("steer", 0), ("steer-memory", 0), ("small-sweep", 0)],
     "thorough": [("path", 6000), ("path", 3500), ("ladder", 4000), ("comb", 6000), ("polymer", 6000), ("peptide", 5000), ("cycle", 10000), ("h2", 10000), ("isolated", 10000),
-                 ("complete", 150), ("single", 1), ("caterpillar", 6000), ("cycle13c", 8000), ("star", 10000), ("grid", 2500), ("bintree", 8191), ("steer", 0), ("small-sweep", 0)],
+                 ("complete", 150), ("single", 1), ("caterpillar", 6000), ("cycle13c", 8000), ("star", 10000), ("grid", 2500), ("bintree", 8191), ("steer", 0), ("steer-memory", 0), ("small-sweep", 0)],
 }
 SPEC = {
     "level": "exploration",
@@ -27,9 +28,9 @@ SPEC = {
              "K_n, stars, grids, binary trees, a single atom; each molecule goes parse(formula+tuples) -> canonicalize -> serialize -> parse(output) and also direct graph -> canonicalize -> serialize; "
              "a steering job measures frame depth at n=64..512 per family and drives the extrapolated critical size; a sweep job runs every family at every size 1..40. "
              "distinct_nontrivial = distinct (family, size) pairs completed with >= 3 atoms"),
-    "assumptions": ["default recursion limit of the interpreter (not lowered)", "sizes bounded by the tier (quick <= 5000 atoms, thorough <= 10000); a watchdog firing is inconclusive, not a violation"],
+    "assumptions": ["default recursion limit of the interpreter (not lowered)", "a per-process memory budget of 4 GiB for molecules within the tier's size bound (only enforced when the RSS monitor projects that it would be exceeded)", "sizes bounded by the tier (quick <= 5000 atoms, thorough <= 10000); a watchdog firing is inconclusive, not a violation"],
     "shards": {"quick": len(JOBS["quick"]), "thorough": len(JOBS["thorough"])},
-    "monitors_required": ["c15_completion", "c15_depth_monitor"],
+    "monitors_required": ["c15_completion", "c15_depth_monitor", "c15_rss_monitor"],
     "required_obs": {"quick": ["cov_depth_linear_family_ge_2000_atoms", "cov_components_ge_1000", "cov_atoms_ge_4000", "cov_complete_graph", "cov_single_atom", "cov_steering_families", "cov_molfile_route_v2000", "cov_molfile_route_v3000", "cov_molfile_route_full_width_coordinate_fields"]},
     "watchdog_s": {"quick": 1500, "thorough": 7200},
 }
@@ -203,6 +204,48 @@ def molfile_route(ctx):
                                              "text_head": text[:600]}, {"family": fam, "n": n, "route": fmt})
 
 
+MEMORY_BUDGET_MB = 4096  # stated resource ceiling per process for molecules within the tier's size bound
+
+
+def steer_memory(ctx, nmax):
+    """Peak-RSS monitor: resident memory after n = 400, 800, 1600 for depth-linear families. If memory grows super-linearly and the projection
+    for the tier's largest size exceeds the stated per-process budget, the real call is driven at the projected critical size under that
+    address-space ceiling; only a real MemoryError there is a verdict."""
+    import json as _json
+    import math
+    import subprocess
+    base = resource.getrusage(resource.RUSAGE_SELF).ru_maxrss // 1024
+    for fam in ("path", "comb"):
+        incs = []
+        for n in (400, 800, 1600):
+            res = run_pipeline(ctx, G.family(fam, n), f"{fam}{n}(rss)")
+            ctx.mon("c15_rss_monitor")
+            if not res["ok"]:
+                record(ctx, res, fam, n)
+                return
+            incs.append(max(1, resource.getrusage(resource.RUSAGE_SELF).ru_maxrss // 1024 - base))
+        exponent = math.log2(max(incs[2], 1) / max(incs[1], 1))
+        info = {"rss_increment_mb": incs, "growth_exponent": round(exponent, 2)}
+        if incs[2] > 200 and exponent > 1.5:
+            n_crit = int(1600 * (MEMORY_BUDGET_MB / incs[2]) ** (1 / exponent) * 1.3)
+            info["projected_critical_size"] = n_crit
+            if n_crit <= nmax:
+                p = subprocess.run(["/venv/bin/python", os.path.join(os.path.dirname(os.path.dirname(os.path.abspath(__file__))), "c15_child.py"), ctx.repo, fam, str(n_crit),
+                                    str(MEMORY_BUDGET_MB + base)], capture_output=True, text=True, timeout=3000)
+                try:
+                    r = _json.loads(p.stdout.strip().splitlines()[-1])
+                except Exception:
+                    r = {"ok": False, "exception": f"child died rc={p.returncode}", "stage": "?", "frames": [p.stderr[-300:]]}
+                info["driven"] = {"n": n_crit, **r}
+                ctx.evaluations += 1
+                if not r["ok"]:
+                    ctx.violation("completion:memory", {"what": f"pipeline ended in {r['exception']} during {r['stage']} within a {MEMORY_BUDGET_MB} MiB address-space budget",
+                                                        "family": fam, "atoms": n_crit, "rss_increments_mb_at_400_800_1600": incs, "growth_exponent": round(exponent, 2),
+                                                        "deepest_frames": r.get("frames")}, {"family": fam, "n": n_crit, "memory": True})
+        ctx.obs.setdefault("memory_steering", {})[fam] = info
+        base = resource.getrusage(resource.RUSAGE_SELF).ru_maxrss // 1024
+
+
 def small_sweep(ctx):
     for fam in ("path", "cycle", "cycle13c", "ladder", "comb", "caterpillar", "star", "polymer", "peptide", "h2", "isolated", "complete", "grid", "bintree"):
         for n in range(1, 41):
@@ -225,6 +268,8 @@ def run(ctx):
     fam, n = JOBS[ctx.tier][ctx.shard]
     if fam == "steer":
         steer(ctx, 2600 if ctx.tier == "quick" else 7000)
+    elif fam == "steer-memory":
+        steer_memory(ctx, 5000 if ctx.tier == "quick" else 10000)  # in its own fresh process: peak RSS is a high-water mark
     elif fam == "small-sweep":
         small_sweep(ctx)
     else:
@@ -236,12 +281,22 @@ def run(ctx):
 
 def case_of_shard(tier, shard):
     fam, n = JOBS[tier][shard]
-    return {"family": fam, "n": n} if fam not in ("steer", "small-sweep") else None
+    return {"family": fam, "n": n} if fam not in ("steer", "steer-memory", "small-sweep") else None
 
 
 def replay(ctx, w):
     bridge.import_tucan()
     if not w.get("case"):
+        return
+    if w["case"].get("memory"):
+        import json as _json, subprocess
+        fam, n = w["case"]["family"], w["case"]["n"]
+        p = subprocess.run(["/venv/bin/python", os.path.join(os.path.dirname(os.path.dirname(os.path.abspath(__file__))), "c15_child.py"), ctx.repo, fam, str(n),
+                            str(MEMORY_BUDGET_MB + 150)], capture_output=True, text=True, timeout=3000)
+        r = _json.loads(p.stdout.strip().splitlines()[-1]) if p.stdout.strip() else {"ok": False, "exception": "child died", "stage": "?"}
+        ctx.evaluations += 1
+        if not r["ok"]:
+            ctx.violation("completion:memory", {"what": f"pipeline ended in {r['exception']} during {r['stage']} within the memory budget", "family": fam, "atoms": n}, w["case"])
         return
     fam, n = w["case"]["family"], w["case"]["n"]
     record(ctx, run_pipeline(ctx, G.family(fam, n), f"{fam}{n}"), fam, n)
